@@ -556,7 +556,15 @@ func runValCluster(sc *valScenario) (res valResult) {
 						ob = []interface{}{"entry", "nobackup"}
 						return
 					}
+					// while a backup fragment is handed over the list names the old and the new backup owner: ask the
+					// one that holds the copy at this moment
 					target = ki.Backups[0]
+					for _, b := range ki.Backups {
+						if b >= 0 && cl.Members[b].Alive && cl.Members[b].DB.VerifDMap().VerifCopy(partitions.BACKUP, name, ki.HKey).Found {
+							target = b
+							break
+						}
+					}
 					args = append(args, "RC")
 				}
 				r, err := cl.Raw(target).Do(vc.ctx, args...).Result()
